@@ -1,0 +1,37 @@
+//go:build verif
+
+// Verification contracts for package acl (comment-only; read by /verif/govc).
+// This file contains no executable code.
+
+package acl
+
+// What "a rule matches a request" means (rule fields empty or "*" are wildcards, names may end in "*").
+//@ spec func nameMatch(ruleName string, name string) bool = trimSpace(ruleName) == "" || trimSpace(ruleName) == "*" || ite(hasSuffix(trimSpace(ruleName), "*"), hasPrefix(name, trimSpace(ruleName)[0 : len(trimSpace(ruleName))-1]), trimSpace(ruleName) == name)
+//@ spec func ruleMatches(rule Rule, action Action, resource Resource, name string) bool = (rule.Action == "" || rule.Action == "*" || equalFold(rule.Action, action)) && (rule.Resource == "" || rule.Resource == "*" || equalFold(rule.Resource, resource)) && nameMatch(rule.Name, name)
+//@ opaque
+//@ spec func anyMatch(rules []Rule, action Action, resource Resource, name string) bool = exists i int :: 0 <= i && i < len(rules) && ruleMatches(rules[i], action, resource, name)
+//@ spec func effectivePrincipal(principal string) string = ite(trimSpace(principal) == "", "anonymous", trimSpace(principal))
+
+//@ func nameMatches
+//@   ensures [C23.name_match_def] result == nameMatch(ruleName, name)
+//@ func actionMatches
+//@   ensures [C23.action_match_def] result == (rule == "" || rule == "*" || equalFold(rule, action))
+//@ func resourceMatches
+//@   ensures [C23.resource_match_def] result == (rule == "" || rule == "*" || equalFold(rule, resource))
+//@ func matches
+//@   reveal ruleMatches
+//@   ensures [C23.match_def] result == ruleMatches(rule, action, resource, name)
+//@
+//@ func (a *Authorizer) Allows
+//@   nullable a
+//@   ensures [C23.disabled_allows_all] (a == nil || !a.enabled) ==> result
+//@   ensures [C23.unknown_principal_gets_default] a != nil && a.enabled && !has(a.principals, effectivePrincipal(principal)) ==> result == a.defaultAllow
+//@   ensures [C23.deny_overrides] a != nil && a.enabled && has(a.principals, effectivePrincipal(principal)) && anyMatch(a.principals[effectivePrincipal(principal)].Deny, action, resource, name) ==> !result
+//@   ensures [C23.allow_without_deny] a != nil && a.enabled && has(a.principals, effectivePrincipal(principal)) && !anyMatch(a.principals[effectivePrincipal(principal)].Deny, action, resource, name) && anyMatch(a.principals[effectivePrincipal(principal)].Allow, action, resource, name) ==> result
+//@   ensures [C23.default_otherwise] a != nil && a.enabled && has(a.principals, effectivePrincipal(principal)) && !anyMatch(a.principals[effectivePrincipal(principal)].Deny, action, resource, name) && !anyMatch(a.principals[effectivePrincipal(principal)].Allow, action, resource, name) ==> result == a.defaultAllow
+//@   loop 1 invariant -1 <= rangeindex && rangeindex < len(rules.Deny) && (forall j int :: 0 <= j && j <= rangeindex ==> !ruleMatches(rules.Deny[j], action, resource, name))
+//@   loop 2 invariant -1 <= rangeindex && rangeindex < len(rules.Allow) && (forall j int :: 0 <= j && j <= rangeindex ==> !ruleMatches(rules.Allow[j], action, resource, name)) && !anyMatch(rules.Deny, action, resource, name)
+//@
+//@ func NewAuthorizer
+//@   ensures [C23.flags_from_config] result != nil && result.enabled == cfg.Enabled && result.defaultAllow == equalFold(trimSpace(cfg.DefaultPolicy), "allow")
+//@   loop 1 invariant -1 <= rangeindex && rangeindex < len(cfg.Principals) && principals != nil
